@@ -24,17 +24,26 @@ def run(ctx):
     specs = [s for s in common.select(ctx, corpus.specs()) if s.tags & {'nul', '8bit', '7bit', 'dot'}]
     pairs = [(s, c) for s in specs for c in configs(ctx.tier) if not compatible(s, c)]
 
+    NULSPECS = ('nul1', 'nul_jam', 'nul_end', 'nul_end2', 'high1')
+
     def e1_filter(spec, cfg):
-        if cfg.name in ('CF8', 'Cf8', 'rCF8'):
-            return spec.name in ('nul1', 'nul_jam') or not quick
         if quick:
-            return spec.name in ('nul1', 'nul_jam', 'high1', 'nul_end', 'nul_end2') or hash_pair(spec, cfg, ctx.seed) % 4 == 0
+            # the yylex-step budget of the quick tier goes to the rule sets built around NUL / high bytes,
+            # under one configuration per table family and mode
+            if spec.name not in NULSPECS:
+                return False
+            return cfg.name in ('Cem', 'Cfe', 'CFe', 'B', 'array', 'r')
+        if cfg.name in ('CF8', 'Cf8', 'rCF8'):
+            return spec.name in NULSPECS
         return True
 
     # every yylex step job allows up to two NUL bytes anywhere in the input
-    common.tokenization_pairs(ctx, pairs, e1_tag='e1', e1_lengths=range(0, 5) if quick else range(0, 6),
-                              e2_cap=10 if quick else 16, maxnul=2, e1_filter=e1_filter,
-                              full_e1_lengths=range(0, 5))
+    common.tokenization_pairs(ctx, pairs, e1_tag='e1', e1_lengths=[2, 3, 4] if quick else range(0, 6),
+                              e2_cap=10 if quick else 16, e1_filter=e1_filter,
+                              maxnul=(lambda s_, c_: 2 if (not quick or c_.table_kind != 'compressed' or '-B' in c_.flags) else 1),
+                              full_e1_lengths=[2, 3, 4] if quick else range(0, 6),
+                              sort_key=(lambda j: (0 if j.meta.get('engine') == 'E2' else 1 if any(t in str(j.meta.get('config')) for t in ('Cf', 'CF', 'B')) else 2, common._cost(j))),
+                              e2_filter=(lambda s_, c_: (hash_pair(s_, c_, ctx.seed) % 2 == 0 or s_.name in NULSPECS)) if quick else None)
     seven_bit_refusals(ctx)
     common.std_assumptions(ctx)
     ctx.assume('7-bit scanners: inputs assumed < 128, as the property states')
